@@ -109,13 +109,19 @@ def leaf_case(ctx, rng, idx):
     model = GP.build_chi_leaf(leaf, n_ids)
     model.set_n_ids(n_ids)
     theta = GP.leaf_top(rng, leaf, n_ids)
+    tail = kind == 'T' and (idx // (len(KINDS) * len(LAYOUTS))) % 3 == 1
+    if tail:
+        # truncation far in the upper tail of the untruncated Gaussian
+        # (mean 4-14 scales below 0): any real mean is in the support
+        theta[:n_dim] = -theta[n_dim:] * rng.uniform(4, 14, size=n_dim)
     arr, th = _layout(theta, leaf, n_ids, layout, rng)
     obs = _obs(rng, leaf, th, n_ids)
     c = rng.normal(size=(n_ids, n_dim)) if upstream else \
         np.zeros((n_ids, n_dim))
     feats = {'class': code, 'kind': kind, 'n_dim': n_dim, 'n_ids': n_ids,
-             'layout': layout, 'upstream': upstream, 'obs1d': obs1d}
-    ctx.case((code, n_dim, min(n_ids, 3), layout, upstream, obs1d),
+             'layout': layout, 'upstream': upstream, 'obs1d': obs1d,
+             'tail_regime': tail}
+    ctx.case((code, n_dim, min(n_ids, 3), layout, upstream, obs1d, tail),
              n_ids >= 2 or n_dim >= 2 or layout != 'flat',
              sample=dict(feats, parameters=arr, observations=obs))
     ctx.count('layout_' + layout.split('_')[0])
